@@ -245,3 +245,54 @@ func GoodStatOnly(path string) (int64, error) {
 	}
 	return st.Size(), nil
 }
+
+// ---- what a worker does after its last result send (R15.1 / R19.1 extension)
+
+// BadTallyAfterResult adds the worker's tally in a deferred function, which runs
+// after the final send: the parent may already be past the join when it reads.
+func BadTallyAfterResult(items []int, workers int) int {
+	var mu sync.Mutex
+	total := 0
+	results := make(chan error, workers)
+	for w := 0; w < workers; w++ {
+		go func() {
+			local := 0
+			defer func() {
+				mu.Lock()
+				total += local
+				mu.Unlock()
+			}()
+			for range items {
+				local++
+			}
+			results <- nil
+		}()
+	}
+	for w := 0; w < workers; w++ {
+		<-results
+	}
+	return total
+}
+
+// GoodTallyBeforeResult adds the tally before the result is sent.
+func GoodTallyBeforeResult(items []int, workers int) int {
+	var mu sync.Mutex
+	total := 0
+	results := make(chan error, workers)
+	for w := 0; w < workers; w++ {
+		go func() {
+			local := 0
+			for range items {
+				local++
+			}
+			mu.Lock()
+			total += local
+			mu.Unlock()
+			results <- nil
+		}()
+	}
+	for w := 0; w < workers; w++ {
+		<-results
+	}
+	return total
+}
